@@ -157,11 +157,12 @@ cdef class _cyExpression:
     def energies(self, samples_like):
         samples, labels = as_samples(samples_like, labels_type=Variables)
 
-        # we need contiguous and unsigned. as_samples actually enforces contiguous
+        # we need contiguous and signed. as_samples actually enforces contiguous
         # but no harm in double checking for some future-proofness
         samples = np.ascontiguousarray(
                 samples,
-                dtype=f'i{samples.dtype.itemsize}' if np.issubdtype(samples.dtype, np.unsignedinteger) else None,
+                # the smallest signed (or float) type that can hold every unsigned value
+                dtype=np.promote_types(samples.dtype, np.int8) if np.issubdtype(samples.dtype, np.unsignedinteger) else None,
                 )
 
         try:
